@@ -869,6 +869,66 @@ Lemma merge_refuted_witness :
   /\ restrict out (writeout out pages stale) = [([s "doc"; s "index.html"], s "new")].
 Proof. cbv zeta. split; [vm_compute; discriminate|]. split; vm_compute; reflexivity. Qed.
 
+(* ------------------------------------------------------------------ the source set of a run *)
+
+Lemma filter_filter_impl {A} (p q : A -> bool) l :
+  (forall x, p x = true -> q x = true) -> filter p (filter q l) = filter p l.
+Proof.
+  intros H. induction l as [|x l IH]; simpl; [reflexivity|].
+  destruct (q x) eqn:Q; simpl.
+  - destruct (p x); now rewrite IH.
+  - destruct (p x) eqn:Px; [rewrite (H x Px) in Q; discriminate|exact IH].
+Qed.
+
+Lemma sources_remove_subtree src excl out f :
+  In out excl -> sources src excl (remove_subtree out f) = sources src excl f.
+Proof.
+  intros Hin. unfold sources, remove_subtree. apply filter_filter_impl.
+  intros kv H. apply andb_true_iff in H as [_ H]. apply negb_true_iff in H.
+  destruct (prefixb out (fst kv)) eqn:E; [|reflexivity].
+  assert (X : existsb (fun e => prefixb e (fst kv)) excl = true) by (apply existsb_exists; eauto).
+  congruence.
+Qed.
+
+(* the premise of stale_output_irrelevant: with the output directory excluded, the set of source
+   files does not depend on what the output directory holds *)
+Theorem sources_ignore_output : forall src excl out f1 f2,
+  In out excl -> remove_subtree out f1 = remove_subtree out f2 ->
+  sources src excl f1 = sources src excl f2.
+Proof.
+  intros src excl out f1 f2 Hin E.
+  rewrite <- (sources_remove_subtree src excl out f1 Hin), <- (sources_remove_subtree src excl out f2 Hin).
+  now rewrite E.
+Qed.
+
+(* hence a whole rerun writes the same tree, whatever an earlier run left — for any way of computing
+   the pages from the sources *)
+Theorem rerun_stale_irrelevant : forall render src excl out f1 f2,
+  In out excl -> remove_subtree out f1 = remove_subtree out f2 ->
+  restrict out (rerun render src excl out f1) = restrict out (rerun render src excl out f2).
+Proof.
+  intros render src excl out f1 f2 Hin E. unfold rerun.
+  rewrite (sources_ignore_output src excl out f1 f2 Hin E). apply stale_output_irrelevant.
+Qed.
+
+(* an output directory below the source directory that is NOT excluded (output_dir replaced on the
+   command line after the settings excluded the old one): the left-over files are sources *)
+Lemma sources_unexcluded_witness :
+  let src := [s "p"] in let out := [s "p"; s "out2"] in
+  let f1 := [([s "p"; s "main.f90"], s "module mine")] in
+  let f2 := ([s "p"; s "out2"; s "src"; s "old.f90"], s "module zz_left_over") :: f1 in
+  remove_subtree out f1 = remove_subtree out f2 /\
+  sources src [[s "p"; s "doc"]] f1 <> sources src [[s "p"; s "doc"]] f2 /\
+  sources src [[s "p"; s "doc"]; out] f1 = sources src [[s "p"; s "doc"]; out] f2.
+Proof. cbv zeta. split; [vm_compute; reflexivity|]. split; [vm_compute; intros H; discriminate H|vm_compute; reflexivity]. Qed.
+
+Lemma sources_unexcluded_refuted :
+  ~ (forall src excl out f1 f2, remove_subtree out f1 = remove_subtree out f2 ->
+       sources src excl f1 = sources src excl f2).
+Proof.
+  intros H. destruct sources_unexcluded_witness as (E & N & _). exact (N (H _ _ _ _ _ E)).
+Qed.
+
 (* ================================================================== refutations (pre-repair pipelines, merging) *)
 
 Lemma merge_refuted :
